@@ -526,10 +526,12 @@ class ServerProc(object):
                 self.st.enqueue(bytes.fromhex(step['hex']))
             elif op == 'eof':
                 self.st.in_eof = True
+                self.w.marks.append(('eof', self.w.now, self.st.index))
                 self.w.fired('server_eof')
                 self.alive = False
             elif op == 'rst':
                 self.st.in_rst = True
+                self.w.marks.append(('rst', self.w.now, self.st.index))
                 self.w.fired('server_rst')
                 self.alive = False
             elif op == 'silence':
@@ -649,6 +651,7 @@ class World(object):
         self.exit_waits = []
         self.fault_marks = []
         self.keys_seen = []
+        self.marks = []
 
     # -- bookkeeping
     def next_seq(self):
